@@ -419,7 +419,7 @@ _mnemonic()
 HEX_CONCRETE = ["10h", "0h", "00h", "08h", "0ah", "a0h", "ffh", "A3h", "ah", "dh"]
 # concrete literal names whose SPELLING could be treated specially (a leading '%', a register that is the tail of a longer one,
 # digits only): they denote themselves, like every other name
-LIT_CONCRETE = ["%di", "%rax", "%ax", "rax", "%st", "7", "FF"]
+LIT_CONCRETE = ["%di", "%rax", "%ax", "rax", "%st", "7", "FF", "gh", "push", "0xh", "Gh"]
 
 
 def _operand():
